@@ -230,6 +230,13 @@ def run(ctx):
         src = witness_sources(ctx, p, r['guard'].cond, wit_p, chal)
         if not src:
             continue
+        # the outcome of a lookup (`v.get(i)`, an Option of a reference) depends on lengths and positions only, never on the values
+        # stored: the same footing as the LENGTH_ONLY calls.  (With the index walking that very vector the lookup cannot even miss.)
+        dty = getattr(r['guard'], 'discr_ty', None) or ''
+        import re as _re
+        if r['guard'].cond.tag == 'discr' and (dty.startswith('std::option::Option<&') or dty.startswith('std::result::Result<&')
+                                               or _re.match(r'^std::ops::ControlFlow<std::(option::Option|result::Result)<std::convert::Infallible(, [^>]+)?>, &', dty)):
+            continue
         n_t += 1
         key = 'R-C06-2/guard/%s' % (r['atoms'],)
         if i in matched:
